@@ -102,8 +102,12 @@ def check_C05(chk):
              "(2) every assembly file translated instruction by instruction into a TLA+ constant and executed by TLC in the ISA "
              "model (spec/isa): final state words = specification, only state words and the own stack frame written, "
              "callee-saved registers / stack pointer / return address restored, key unchanged, no branch or address depends on "
-             "state or key bits; (3) the 21 generated files compared byte-for-byte with freshly built generator output, and the "
+             "state or key bits; each 32-bit program is additionally run ONCE symbolically (Sym32: state and key bits are "
+             "variables of GF(2) polynomials, cut and re-labelled at every round boundary), which shows for all 2^128 states "
+             "and all keys that every round of the loop body is exactly Step^128 with that round's key offset; "
+             "(3) the 21 generated files compared byte-for-byte with freshly built generator output, and the "
              "generator output itself run through (2)",
-        assumptions=["TLC executes concrete inputs through the ISA models: structured and random states/keys, not all 2^128 x keys; "
-                     "the programs are branch-free bit-sliced circuits per round and the taint ghost excludes input-dependent paths",
+        assumptions=["the AVR files and the portable C back end are checked on concrete inputs only (structured and random states/keys); "
+                     "the 32-bit assembly files are also covered for all inputs per round by the symbolic run, their loop "
+                     "control over 1..24 rounds by the concrete runs",
                      "the ISA models cover only the instruction subsets the shipped files use; an instruction outside them is a machinery error"])
